@@ -16,11 +16,14 @@ subprocess.run(['git', '-C', '/repo', 'apply', f'{out}/patch.diff'], check=True)
 caught = {}
 try:
     props = subprocess.run(['/verif/bin/kvet', 'list'], capture_output=True, text=True).stdout.split()
-    for p in props:
-        r = subprocess.run(['/verif/bin/kvet', 'check', '-prop', p, '-no-evidence'], capture_output=True, text=True, cwd='/verif')
-        if r.returncode != 0:
-            keys = re.findall(r'^  (?:violated|unresolved) \[[^\]]+\] (\S.*?) at \S+$', r.stdout, re.M)
-            caught[p] = keys[:6]
+    from concurrent.futures import ThreadPoolExecutor
+    def one(p):
+        return p, subprocess.run(['/verif/bin/kvet', 'check', '-prop', p, '-no-evidence'], capture_output=True, text=True, cwd='/verif')
+    with ThreadPoolExecutor(max_workers=8) as ex:
+        for p, r in ex.map(one, props):
+            if r.returncode != 0:
+                keys = re.findall(r'^  (?:violated|unresolved) \[[^\]]+\] (\S.*?) at \S+$', r.stdout, re.M)
+                caught[p] = keys[:6]
 finally:
     subprocess.run(['git', '-C', '/repo', 'checkout', '--', '.'], check=True)
 notes = open(f'{out}/notes.md').read() if os.path.exists(f'{out}/notes.md') else ''
